@@ -158,7 +158,11 @@ func (x *exec) cutAfter(st *State, fr *Frame, ins ssa.Instruction, cs *spec.Call
 	// 3. assume the invariants and go on with arbitrary results of the call
 	env = x.unitEnv(st, fr)
 	for _, cl := range cs.Asserts {
-		st.assume(env.evalBool(cl.Expr))
+		// an invariant about the arguments or results of a call made before the cut is an obligation of the arriving paths
+		// only: the trace restarts here, so the tail assumes nothing from it
+		if t, ok := evalBoolIfEvents(env, cl.Expr); ok {
+			st.assume(t)
+		}
 	}
 	var nrets []Value
 	for i, r := range rets {
@@ -214,4 +218,17 @@ func paramSpill(a *ssa.Alloc) *ssa.Parameter {
 	}
 	p, _ := st[0].(*ssa.Parameter)
 	return p
+}
+
+func evalBoolIfEvents(env *Env, ex spec.Expr) (t smt.Term, ok bool) {
+	defer func() {
+		if r := recover(); r != nil {
+			if _, is := r.(noSuchEvent); is {
+				ok = false
+				return
+			}
+			panic(r)
+		}
+	}()
+	return env.evalBool(ex), true
 }
